@@ -1026,7 +1026,8 @@ def fp_program(rng, charsigned):
     return program(g.structs, g.globals, [func("main", T("int"), [], s_block(body))], charsigned)
 
 
-def random_programs(ctx, objdir, runtime):
+def random_programs(ctx, objdir, runtime, only=None):
+    """only: [(program AST, target)] replays exactly these programs (./check C01 --replay) instead of generating"""
     import props.c01 as c01
     n = 48 if ctx.quick else 600
     n_init = 24 if ctx.quick else 300
@@ -1036,7 +1037,12 @@ def random_programs(ctx, objdir, runtime):
     n_agg = 12 if ctx.quick else 200
     n_refine = 12 if ctx.quick else 80
     progs, fam_of = [], {}
-    for i in range(n + n_init + n_sw + n_vm + n_fp + n_agg):
+    if only is not None:
+        progs = list(only)
+        n_refine = len(progs) + 6
+        for pr, t in progs:
+            fam_of[id(pr)] = "random"
+    for i in range(n + n_init + n_sw + n_vm + n_fp + n_agg if only is None else 0):
         t = ["x86_64-sysv", "aarch64", "riscv64"][i % 3] if not ctx.quick else ["x86_64-sysv", "aarch64"][i % 2]
         rng = random.Random(ctx.seed * 100003 + i)
         if i >= n + n_init + n_sw + n_vm + n_fp:
@@ -1066,7 +1072,7 @@ def random_programs(ctx, objdir, runtime):
         if rc != 0:
             # the generator emits valid C (audited by gcc below); rejection of a valid program is a C01 violation
             au = c01.audit_native(ctx, src, "rj" + vlib.sha(src)[:10], runtime, p["charsigned"])
-            ctx.violation("random:rejected", "valid MiniC program rejected or crashed: rc=%s %s" % (rc, err[:300]), {"target": t, "source": src})
+            ctx.violation("random:rejected", "valid MiniC program rejected or crashed: rc=%s %s" % (rc, err[:300]), {"target": t, "source": src, "prog": json.loads(to_json(p))})
             continue
         keep.append((p, t, src, out))
     # expected behaviour from CSem (all programs); Refine (CSem x QbeMachine) on a sample
@@ -1127,7 +1133,7 @@ def random_programs(ctx, objdir, runtime):
             ctx.violation("random:%s" % ("output" if kind == "ok" else kind),
                           "IL of a defined MiniC program behaves differently from the C abstract machine on %s: expected out=%s rc=%s, observed %s %s" % (
                               t, want[:40], wantrc, lines[:40] if lines else None, detail),
-                          {"target": t, "source": src, "expected": want, "observed": lines, "rc": detail})
+                          {"target": t, "source": src, "expected": want, "observed": lines, "rc": detail, "prog": json.loads(to_json(p))})
         ctx.count("prog:" + vlib.sha(src), nontrivial=len(want) >= 3)
         ctx.validated(1)
         vlib.pool_add("C01", src, t)
@@ -1169,5 +1175,5 @@ def random_programs(ctx, objdir, runtime):
                 raise vlib.MachineryError("il2c and QbeMachine.tla disagree on the same IL (program %d): %s vs %s" % (pid, qlines[:40], lines[:40]))
             if v["verdict"] == "DISAGREE":
                 ctx.violation("refine:%s" % v["qstatus"], "Refine.tla: ObsAgree fails — IL machine status %s, out %s vs C %s" % (
-                    v["qstatus"], qlines[:40], [str(from_w8(x)) for x in v["cout"]][:40]), {"target": t, "source": src})
+                    v["qstatus"], qlines[:40], [str(from_w8(x)) for x in v["cout"]][:40]), {"target": t, "source": src, "prog": json.loads(to_json(p))})
         ctx.sample({"random program (first lines)": sample[0][1][2][:600], "expected obs": [str(from_w8(x)) for x in exp[sample[0][0]]["out"]][:20]})
